@@ -168,6 +168,21 @@ class _ParseFn(py2coq.Fn):
             if ta != B:
                 raise Unsupported('unpack operand')
             return '(unpack_le32 %s)' % a, I
+        # self.check_crc_a(x) is False   (check_crc_a is the kernel gen_check_crc_a of Gen/Crc.v)
+        if isinstance(e, ast.Compare) and len(e.ops) == 1 and isinstance(e.ops[0], ast.Is) \
+                and isinstance(e.comparators[0], ast.Constant) and e.comparators[0].value is False \
+                and isinstance(e.left, ast.Call) and ast.unparse(e.left.func) == 'self.check_crc_a' and len(e.left.args) == 1:
+            a, ta = self.expr(e.left.args[0], env)
+            if ta != B:
+                raise Unsupported('check_crc_a operand')
+            return '(negb (gen_check_crc_a %s))' % a, 'bool'
+        if isinstance(e, ast.IfExp):
+            c = self.truth(*self.expr(e.test, env))
+            a, ta = self.expr(e.body, env)
+            b, tb = self.expr(e.orelse, env)
+            if ta != tb:
+                raise Unsupported('conditional expression types')
+            return '(if %s then %s else %s)' % (c, a, b), ta
         return super().expr(e, env)
 
 
@@ -196,6 +211,8 @@ def _parse_block(fn, stmts, env, rest):
     s, tail = stmts[0], stmts[1:]
     k = lambda: _parse_block(fn, tail, env, rest)   # noqa: E731
     if isinstance(s, ast.Raise):
+        if not tail and isinstance(s.exc, ast.Call) and ast.unparse(s.exc.func) == 'nfc.clf.TransmissionError':
+            return '(Err TransmissionError)'
         if tail or ast.unparse(s.exc) != 'IOError(errno.EIO, os.strerror(errno.EIO))':
             raise Unsupported('raise form: ' + ast.unparse(s))
         return '(Err IOErr)'
@@ -265,6 +282,84 @@ def acr122_parse(repo):
             'Definition gen_acr122_rsp_parse (cmd_code : Z) (frame : list Z) : res (list Z) :=\n  %s.\n' % (t1, t2))
 
 
+def _expr_with(src_text, env_types):
+    """translate one Python expression text over the given typed names"""
+    e = ast.parse(src_text, mode='eval').body
+    fn = _ParseFn(_synth('x', list(env_types), [ast.Pass()]), dict(env_types))
+    env = {k: (t, True) for k, t in env_types.items()}
+    return fn.expr(e, env)
+
+
+def crc_paths(repo):
+    """Who verifies CRC_A on a Type A target of the PN53x family: sense_tta clears RxCRCEn in the chip for some SEL_RES
+    values, send_cmd_recv_rsp must then take the software path _tt2_send_cmd_recv_rsp for exactly those targets."""
+    tree = ast.parse(open(os.path.join(repo, 'src/nfc/clf/pn53x.py')).read())
+    sense = _cls_method(tree, 'Device', 'sense_tta')
+    xchg = _cls_method(tree, 'Device', 'send_cmd_recv_rsp')
+    tt2 = _cls_method(tree, 'Device', '_tt2_send_cmd_recv_rsp')
+    # (1) the `if` in sense_tta that switches the chip's receive CRC check off, and the value it writes
+    offs = [n for n in ast.walk(sense) if isinstance(n, ast.If) and any(isinstance(b, ast.Expr) and 'CIU_RxMode' in ast.unparse(b) and 'write_register' in ast.unparse(b)
+                                                                         for b in n.body)]
+    if len(offs) != 1 or offs[0].orelse:
+        raise Unsupported('sense_tta: the statement that disables the chip crc check')
+    body = [b for b in offs[0].body if not _is_log(b)]
+    if len(body) != 2 or ast.unparse(body[0]) != "rxmode = self.chipset.read_register('CIU_RxMode')" \
+            or not (isinstance(body[1], ast.Expr) and isinstance(body[1].value, ast.Call)
+                    and ast.unparse(body[1].value.func) == 'self.chipset.write_register' and len(body[1].value.args) == 2
+                    and ast.unparse(body[1].value.args[0]) == "'CIU_RxMode'"):
+        raise Unsupported('sense_tta: shape of the crc switch-off')
+    # any other write to CIU_RxMode in sense_tta would change who checks
+    if sum('CIU_RxMode' in ast.unparse(n) for n in ast.walk(sense) if isinstance(n, ast.Call) and 'write_register' in ast.unparse(n.func)) != 1:
+        raise Unsupported('sense_tta: more than one write to CIU_RxMode')
+    t_off, ty = _expr_with(ast.unparse(offs[0].test), {'sel_res': B})
+    t_val, tv = _expr_with(ast.unparse(body[1].value.args[1]), {'rxmode': I})
+    if ty != 'bool' or tv != I:
+        raise Unsupported('sense_tta: types')
+    # (2) the dispatch in send_cmd_recv_rsp
+    outer = [n for n in ast.walk(xchg) if isinstance(n, ast.If) and ast.unparse(n.test) == 'target.sens_res and (not target.atr_res)']
+    if len(outer) != 1 or outer[0].orelse or len(outer[0].body) != 2:
+        raise Unsupported('send_cmd_recv_rsp: Type A passive target branch')
+    tt1_if, tt2_if = outer[0].body
+    if not (isinstance(tt1_if, ast.If) and ast.unparse(tt1_if.test) == 'target.rid_res' and not tt1_if.orelse
+            and len(tt1_if.body) == 1 and ast.unparse(tt1_if.body[0]).startswith('return self._tt1_send_cmd_recv_rsp(')):
+        raise Unsupported('send_cmd_recv_rsp: Type 1 Tag branch')
+    if not (isinstance(tt2_if, ast.If) and not tt2_if.orelse and len(tt2_if.body) == 1
+            and ast.unparse(tt2_if.body[0]) == 'return self._tt2_send_cmd_recv_rsp(data, timeout + 0.1)'):
+        raise Unsupported('send_cmd_recv_rsp: Type 2 Tag branch')
+    if sum(1 for n in ast.walk(xchg) if isinstance(n, ast.Call) and ast.unparse(n.func) == 'self._tt2_send_cmd_recv_rsp') != 1:
+        raise Unsupported('send_cmd_recv_rsp: calls of _tt2_send_cmd_recv_rsp')
+    t_sw, ty = _expr_with(ast.unparse(tt2_if.test).replace('target.sel_res', 'sel_res'), {'sel_res': B})
+    if ty != 'bool':
+        raise Unsupported('send_cmd_recv_rsp: type')
+    # (3) the software check: everything after `data = self.chipset.in_communicate_thru(data, timeout)`
+    b = [x for x in tt2.body if not (isinstance(x, ast.Expr) and isinstance(x.value, ast.Constant))]
+    if not b or ast.unparse(b[0]) != 'data = self.chipset.in_communicate_thru(data, timeout)':
+        raise Unsupported('_tt2_send_cmd_recv_rsp: first statement')
+    fn = _ParseFn(_synth('x', ['data'], [ast.Pass()]), {'data': B})
+    t_rsp = _parse_block(fn, b[1:], {'data': (B, True)}, None)
+    # the drivers of the family must not override any of the three
+    for mod in ('pn531', 'pn532', 'pn533', 'rcs956', 'acr122', 'arygon'):
+        t2 = ast.parse(open(os.path.join(repo, 'src/nfc/clf/%s.py' % mod)).read())
+        for c in [n for n in t2.body if isinstance(n, ast.ClassDef)]:
+            for f in [n for n in c.body if isinstance(n, ast.FunctionDef)]:
+                if f.name in ('_tt2_send_cmd_recv_rsp', 'send_cmd_recv_rsp'):
+                    fb = [x for x in f.body if not (isinstance(x, ast.Expr) and isinstance(x.value, ast.Constant))]
+                    args = ', '.join(a.arg for a in f.args.args[1:])
+                    if len(fb) != 1 or ast.unparse(fb[0]) != 'return super(Device, self).%s(%s)' % (f.name, args):
+                        raise Unsupported('%s.%s overrides %s' % (mod, c.name, f.name))   # anything but pure delegation
+                if f.name == 'sense_tta' and ('CIU_RxMode' in ast.unparse(f) or 'sel_res' in ast.unparse(f)):
+                    raise Unsupported('%s.%s.sense_tta touches CIU_RxMode / sel_res' % (mod, c.name))
+    return ('Definition gen_chip_crc_off (sel_res : list Z) : bool :=\n  %s.\n\n'
+            'Definition gen_rxmode_off (rxmode : Z) : Z :=\n  %s.\n\n'
+            'Definition gen_sw_crc_path (sel_res : list Z) : bool :=\n  %s.\n\n'
+            'Definition gen_tt2_rsp (data : list Z) : res (list Z) :=\n  %s.\n' % (t_off, t_val, t_sw, t_rsp))
+
+
+def generate_crc_paths(repo):
+    head = py2coq.PRELUDE % {'src': 'src/nfc/clf/pn53x.py (who verifies CRC_A: sense_tta / send_cmd_recv_rsp / _tt2_send_cmd_recv_rsp)'}
+    return head + 'From NV Require Import Gen.Crc.\n\n' + crc_paths(repo)
+
+
 def generate(repo):
     out = [py2coq.PRELUDE % {'src': 'src/nfc/clf/pn53x.py, acr122.py, rcs380.py (frame construction statements)'}]
     for g in (pn53x_build, acr122_build, rcs380_build, pn53x_parse, acr122_parse):
@@ -274,4 +369,4 @@ def generate(repo):
 
 
 generate.SOURCE = 'src/nfc/clf/{pn53x,acr122,rcs380}.py'
-KERNELS = {'FramesK': generate}
+KERNELS = {'FramesK': generate, 'CrcPathK': generate_crc_paths}
